@@ -1,10 +1,10 @@
 package readsim
 
 import (
-	"os"
 	"context"
 	"fmt"
 	"hash/fnv"
+	"os"
 	"regexp"
 	"runtime/debug"
 	"strings"
